@@ -30,7 +30,8 @@ def bounds(tier):
             "handler life": f"timeout T a free positive real, retries N in 0..{2 if q else 3}, <= 2N+4 engine iterations with "
                             "free real time steps, answered at any iteration or never",
             "handshake": f"default snapshot block (concrete), {5 if q else 8} symbolic loss bits on the first datagrams in "
-                         "either direction, unlimited retry budget for the remainder"}
+                         "either direction, unlimited retry budget for the remainder; and the first 0..3 requests of each of the four "
+                         "handshake steps lost (handshakes of up to a minute of virtual time)"}
 
 
 ASSUMPTIONS = [
@@ -129,14 +130,18 @@ def pacing_run(iters):
             s = GeckoUdpSocket(MockSocket(clock))
             idle = sx.real_("idle_before_burst", 0, 100)
             clock._t = idle
-            for i in range(4):
-                s.queue_send(H(b"D%d" % i), DEST)
+            hs = [H(b"D%d" % i) for i in range(4)]
+            if sx.choice("same_handler_queued_again", 2):
+                hs[2] = hs[0]          # the ping handler, a retry: one object queued while its earlier entry still waits
+            for h in hs:
+                s.queue_send(h, DEST)
             for k in range(iters):
                 s._process_send_requests()
                 clock._t = clock._t + sx.real_(f"step{k}", 0, 1)
             sent = s._socket.sent
             sx.observe("n", len(sent))
-            sx.check([x[0] for x in sent] == [b"D%d" % i for i in range(len(sent))], "eng.fifo-order")
+            sx.check([x[0] for x in sent] == [h.data for h in hs[:len(sent)]], "eng.fifo-order")
+            sx.check(len(sent) + len(s._send_handlers) == 4, "eng.every-queued-send-leaves-or-still-waits")
             for a, b in zip(sent, sent[1:]):
                 sx.check((b[2] - a[2]) >= (1.0 / 50), "eng.sends-at-least-a-throttle-interval-apart",
                          lambda: f"{a[2]} then {b[2]}")
@@ -246,9 +251,19 @@ def handler_life(maxretries):
             req._retry_count = N
             req._start_time = clock.time()
             s.add_receive_handler(req)
+            backlog = [0, 3][sx.choice("sends_queued_ahead", 2)]
+            for i in range(backlog):
+                s.queue_send(H(b"B%d" % i), DEST)
             s.queue_send(req, PARMS)
-            iters = 2 * N + 4
+            iters = 2 * N + 4 + backlog
+
+            def mine():
+                """transmissions of the request: on the wire or still waiting in the queue"""
+                return len([x for x in s._socket.sent if x[0] != b"B%d" % 0 and not x[0].startswith(b"B")]) + \
+                    len([x for x in s._send_handlers if x[0] is req])
             answer_at = sx.choice("answer_at_iteration", iters + 1)        # == iters: never
+            # (a reply cannot precede the first transmission, which waits behind the sends queued ahead)
+            sx.assume(answer_at >= backlog)
             removed_at = None
             sends_at_removal = None
             answered_sends = None
@@ -258,17 +273,17 @@ def handler_life(maxretries):
                 s._process_send_requests()
                 s._process_received_data()
                 if k == answer_at:
-                    answered_sends = len(s._socket.sent) + len(s._send_handlers)
+                    answered_sends = mine()
                 for h in list(s._receive_handlers):
                     h.loop(s)
                 s._cleanup_handlers()
                 if removed_at is None and req not in s._receive_handlers:
                     removed_at = k
-                    sends_at_removal = len(s._socket.sent) + len(s._send_handlers)
+                    sends_at_removal = mine()
                 # time passes: at least the throttle interval so queued sends can leave
                 clock._t = clock._t + Fraction(1, 32) + sx.real_(f"dt{k}", 0, 20)
             # flush what is still queued
-            total = len(s._socket.sent) + len(s._send_handlers)
+            total = mine()
             sx.observe("total", total)
             if answer_at < iters and (removed_at is None or removed_at >= answer_at):
                 sx.check(got and removed_at == answer_at, "eng.answered-request-is-removed-at-once", lambda: f"{removed_at} vs {answer_at}")
@@ -283,7 +298,7 @@ def handler_life(maxretries):
     return scenario
 
 
-def handshake(nbits):
+def handshake(nbits, per_step=False):
     def scenario(sx):
         from sx.vloop import patched_time
         from geckolib.spa import GeckoSpa
@@ -321,9 +336,22 @@ def handshake(nbits):
                 return False
 
             def lost():
+                if per_step:
+                    return False
                 if bit[0] < nbits:
                     bit[0] += 1
                     return bool(sx.choice(f"loss{bit[0] - 1}", 2))
+                return False
+            # per-step variant: the first k requests of each handshake step (version, channel, config files, status
+            # block) are lost, k in 0..3 per step - well inside the retry budget, but a long handshake
+            steps = [b"AVERS", b"CURCH", b"SFILE", b"STATU"]
+            budget = {v: (sx.choice(f"lost_attempts_{v.decode()}", 4) if per_step else 0) for v in steps}
+
+            def request_lost(data):
+                for v in steps:
+                    if b"<DATAS>" + v in data and budget[v] > 0:
+                        budget[v] -= 1
+                        return True
                 return False
             for it in range(4000):
                 if spa._is_connected:
@@ -332,7 +360,7 @@ def handshake(nbits):
                 sim._socket._last_send_time = -1.0
                 spa._process_send_requests()
                 for (data, dest, t) in spa._socket.sent:
-                    if not lost():
+                    if not lost() and not request_lost(data):
                         sim._socket._socket.inbox.append((data, DEST))
                 del spa._socket.sent[:]
                 progressed = False
@@ -373,3 +401,6 @@ def units(tier):
     for n in range(N + 1):
         yield Unit(f"handler-life.retries{n}", handler_life(N), presets={"retries": n}, max_paths=400000, max_depth=3000)
     yield Unit("handshake", handshake(5 if q else 8), validate=False, max_paths=100000)
+    for k in range(4):
+        yield Unit(f"handshake.lossy-steps.{k}", handshake(0, per_step=True), validate=False, max_paths=100000,
+                   presets={"lost_attempts_AVERS": k})
